@@ -17,7 +17,6 @@ import shutil
 from vf import coq
 from vf.core import REPO, sh
 
-SYSEXIT_KEY = "exit-by-exception-runpy-returns"
 
 LIB_PREFIX = ("c19lib.", "builtins.", "posix.", "math.", "sys.", "generator.", "uftrace_python.")
 
@@ -476,14 +475,13 @@ Require Import UV.C19.Model.
 """
 
 
-def evaluate(ctx, ecases, fixed, name="ecases"):
+def evaluate(ctx, ecases, name="ecases"):
     if not ecases:
-        return {"mismatch": [], "violations": [], "defect_class": []}
+        return {"mismatch": [], "violations": []}
     defs = "Definition ecases : list ecase := [\n%s\n].\n" % ";\n".join(c_ecase(k) for k in ecases)
     res = coq.run_cases(ctx, name, PRE, defs, [
-        ("mismatch", "bad_indices (e_agrees %s) ecases 0" % coq.coq_bool(fixed)),
+        ("mismatch", "bad_indices e_agrees ecases 0"),
         ("violations", "bad_indices e_ok ecases 0"),
-        ("defect_class", "bad_indices (fun k => negb (e_in_defect_class k)) ecases 0"),
     ])
     if res is None:
         return None
@@ -540,67 +538,61 @@ MAIN_PROG = {"src": "#!/usr/bin/env python3\nimport sys\nimport c19lib\ndef help
                     "c19lib.q_dump(sys.argv[1])\n",
              "ending": "normal", "fnames": ["main", "helper"], "tags": ["witness:-F main"]}
 
+ABC_PROG = {"src": "#!/usr/bin/env python3\nimport os, sys\nimport c19lib\n"
+                   "def a():\n    c19lib.LOG += ['E a']\n    b()\n    c19lib.LOG += ['X a']\n"
+                   "def b():\n    c19lib.LOG += ['E b']\n    c()\n    c19lib.LOG += ['X b']\n"
+                   "def c():\n    c19lib.LOG += ['E c', 'E posix.getpid']\n    os.getpid()\n    c19lib.LOG += ['X posix.getpid', 'X c']\n"
+                   "a()\nc19lib.q_dump(sys.argv[1])\n",
+            "ending": "normal", "fnames": ["a", "b", "c"], "tags": ["fixed:abc"]}
+
 OSEXIT_PROG = {"src": "#!/usr/bin/env python3\nimport os, sys\nimport c19lib\ndef q_b():\n    c19lib.LOG += ['E q_b', 'X q_b']\n"
                       "def q_a():\n    c19lib.LOG += ['E q_a']\n    q_b()\n    c19lib.q_dump(sys.argv[1])\n    os._exit(4)\nq_a()\n",
                "ending": "os._exit", "fnames": ["q_a", "q_b"], "tags": ["witness:os._exit"]}
 
 
-def verdict(ctx, ecases, res, fixed):
+def verdict(ctx, ecases, res):
     if res is None:
         return
-    ctx.log("e2e: %d cases; model mismatches %s; specification violations %s; in defect class %s"
-            % (len(ecases), res["mismatch"], res["violations"], res["defect_class"]))
-    defect = set(res["defect_class"])
-    new = [i for i in res["violations"] if fixed or i not in defect]
-    for i in new[:3]:
+    ctx.log("e2e: %d cases; model mismatches %s; specification violations %s" % (len(ecases), res["mismatch"], res["violations"]))
+    for i in res["violations"][:3]:
         k = ecases[i]
         ctx.violation("C19 violated end-to-end: `uftrace replay` is not the call forest the program logged, selected by "
                       "the options (libcall %s, filters %s)" % (k["lib"], k["env"]),
                       dict(k["rep"], logged=k["forest"], replayed=k["replay"]), True)
-    if res["mismatch"] and not new:
+    if res["mismatch"] and not res["violations"]:
         k = ecases[res["mismatch"][0]]
         ctx.violation("model and real uftrace record/replay disagree on %d generated Python programs; the specification "
                       "accepts every explored trace" % len(res["mismatch"]),
                       dict(k["rep"], correspondence="C19.Model.run + mc_run vs uftrace record + replay",
                            logged=k["forest"], replayed=k["replay"]), False)
-    # unpaired exits reported by libmcount
+    # unpaired exits reported by libmcount: never, whatever the ending of the script
     for k in ecases:
-        from props import c19 as _c19
-        if k["unpaired"] and (not k["by_exception"] or _c19.repaired2(ctx)) and (fixed or ecases.index(k) not in defect):
-            ctx.violation("libmcount reported an unpaired cygprof exit for a generated Python program",
+        if k["unpaired"]:
+            ctx.violation("libmcount reported an unpaired cygprof exit for a Python program (ending: %s)" % k["rep"]["ending"],
                           k["rep"], True)
             break
     ctx.extra["e2e_cases"] = len(ecases)
-    ctx.extra["e2e_in_defect_class"] = len(defect)
 
 
-def run(ctx, objdir, fixed):
+def run(ctx, objdir):
     rng = ctx.rng
     w = World(ctx, objdir)
     ecases = []
-    # witness of the second finding: a script ended by sys.exit / an uncaught exception
+    # a script ended by sys.exit(): ordinary case (two unpaired exits reached libmcount before fix d27b480)
     w.write(SYSEXIT_PROG)
     nat = w.native()
-    k = one_config(ctx, w, SYSEXIT_PROG, nat, "SINGLE", None)
+    for lib in ("SINGLE", "NESTED"):
+        k = one_config(ctx, w, SYSEXIT_PROG, nat, lib, None)
+        if k is not None:
+            ecases.append(k)
+            ctx.case(key=("e2e-fixed", "sys.exit", lib), tags=["e2e:fixed-sys.exit", "e2e:lib:" + lib])
+    # tests/s-abc.py -F a -N .getpid: ordinary case (unbalanced before fix 5445264)
+    w.write(ABC_PROG)
+    nat = w.native()
+    k = one_config(ctx, w, ABC_PROG, nat, "SINGLE", ["a", "!.getpid"])
     if k is not None:
         ecases.append(k)
-        ctx.case(key=("e2e-witness", "sys.exit"), tags=["e2e:witness-sys.exit"])
-        text = ("a script that ends by sys.exit() or an uncaught exception: the `return` events of runpy._run_code and "
-                "runpy._run_module_as_main (entered before tracing started) are passed to libmcount as exits "
-                "(WARN: unpaired cygprof exit; __cygprof_exit inspects rstack[-1]); default and --nest-libcall modes")
-        from props import c19 as _c19
-        if k["unpaired"] and _c19.repaired2(ctx):
-            ctx.violation("a script ended by sys.exit() still sends unpaired exits to libmcount (repair expected by known-findings.txt)",
-                          k["rep"], True)
-        elif k["unpaired"]:
-            if ctx.kf.listed(ctx.prop, SYSEXIT_KEY):
-                ctx.known_finding(SYSEXIT_KEY, text, True, k["rep"])
-            else:
-                ctx.log("PENDING-FINDING property=C19 key=%s (not listed in known-findings.txt): %s" % (SYSEXIT_KEY, text))
-                ctx.extra.setdefault("pending_findings", []).append(
-                    {"key": SYSEXIT_KEY, "text": text, "witness": SYSEXIT_PROG["src"], "proposed_fix": "proposed-fixes/C19-2.diff"})
-        else:
-            ctx.log("finding %s no longer reproduces" % SYSEXIT_KEY)
+        ctx.case(key=("e2e-fixed", "abc -F a -N .getpid"), tags=["e2e:fixed-abc-FN", "e2e:filter:mixed"])
     # witness of the third finding: -F <python function> when the interpreter has a native symbol of that name
     w.write(MAIN_PROG)
     nat = w.native()
@@ -612,17 +604,10 @@ def run(ctx, objdir, fixed):
                 "native symbols, enters opt-in mode and drops every Python pseudo-address; -F math.sqrt (regex) "
                 "matches math_sqrt the same way")
         if k["replay"] == [] and k["forest"]:
-            if ctx.kf.listed(ctx.prop, NATIVE_KEY):
-                ctx.known_finding(NATIVE_KEY, text, True, k["rep"])
-            elif any("property=C19" in l and NATIVE_KEY in l for l in ctx.kf.fixed):
-                ctx.violation("-F main on a Python script records nothing (repair expected by known-findings.txt)", k["rep"], True)
-            else:
-                ctx.log("PENDING-FINDING property=C19 key=%s (not listed in known-findings.txt): %s" % (NATIVE_KEY, text))
-                ctx.extra.setdefault("pending_findings", []).append(
-                    {"key": NATIVE_KEY, "text": text, "witness": MAIN_PROG["src"], "options": "-F main"})
+            ctx.known_finding(NATIVE_KEY, text, True, dict(k["rep"], key=NATIVE_KEY))
         else:
             ecases.append(k)      # behaves as documented in this environment: judged like every other case
-            ctx.log("finding %s does not reproduce in this environment (no native symbol `main`?)" % NATIVE_KEY)
+            ctx.known_finding(NATIVE_KEY, text, False)
     # a script ended by os._exit: the hook of python/uftrace.py must still write the symbol table
     w.write(OSEXIT_PROG)
     nat = w.native()
@@ -631,7 +616,7 @@ def run(ctx, objdir, fixed):
         if k is not None:
             ecases.append(k)
             ctx.case(key=("e2e-fixed", "os._exit", lib), tags=["e2e:fixed-os._exit", "e2e:lib:" + lib])
-    nprog = ctx.n(6, 55)
+    nprog = ctx.n(6, 48)
     for pi in range(nprog):
         prog = gen_program(rng)
         w.write(prog)
@@ -642,7 +627,7 @@ def run(ctx, objdir, fixed):
         nconf = ctx.n(2, 5)
         logged = sorted(set(l.split(" ", 1)[1] for l in nat[3] if l))
         for ci in range(nconf):
-            lib, env = gen_options(rng, prog, allow_mixed=(fixed or ci == 1), logged=logged,
+            lib, env = gen_options(rng, prog, allow_mixed=True, logged=logged,
                                    plain_lib=["NESTED", "SINGLE", "NONE"][pi % 3] if ci == 0 else None)
             k = one_config(ctx, w, prog, nat, lib, env)
             if k is None:
@@ -653,11 +638,11 @@ def run(ctx, objdir, fixed):
             ctx.case(key=("e2e", prog["src"], lib, tuple(env or ())), tags=["e2e:" + t for t in prog["tags"]] +
                      ["e2e:lib:" + lib, "e2e:filter:" + fk], size=len(nat[3]),
                      sample={"e2e_cmd": k["rep"]["cmd"], "log_lines": len(nat[3])} if len(ctx.samples) < 5 else None)
-    res = evaluate(ctx, ecases, fixed)
-    verdict(ctx, ecases, res, fixed)
+    res = evaluate(ctx, ecases)
+    verdict(ctx, ecases, res)
 
 
-def replay(ctx, objdir, fixed, obj):
+def replay(ctx, objdir, obj):
     w = World(ctx, objdir)
     prog = {"src": obj["program"], "ending": obj.get("ending", "normal"), "fnames": [], "tags": []}
     w.write(prog)
@@ -667,5 +652,5 @@ def replay(ctx, objdir, fixed, obj):
     if k is None:
         return
     ctx.log("replayed e2e: logged", k["forest"], "replay", k["replay"])
-    res = evaluate(ctx, [k], fixed, name="ereplay")
-    verdict(ctx, [k], res, True)      # no exemption on an explicit replay
+    res = evaluate(ctx, [k], name="ereplay")
+    verdict(ctx, [k], res)
